@@ -46,7 +46,7 @@ PROP_CODE = ['Lcapy/Props/C16Atomic.lean', 'Lcapy/Props/C16SymCode.lean']
 HELPERS = ['Lcapy/Model/Cache.lean', 'Lcapy/Model/CacheAux.lean', 'Lcapy/Spec/Cache.lean',
            'Lcapy/Proofs/CacheTab.lean', 'Lcapy/Proofs/CacheElts.lean', 'Lcapy/Proofs/CacheInv.lean',
            'Lcapy/Proofs/CacheIso.lean', 'Lcapy/Proofs/CachePure.lean', 'Lcapy/Proofs/CacheAux.lean', 'Lcapy/Driver/C16.lean',
-           'Lcapy/Model/SymReg.lean', 'Lcapy/Proofs/SymReg.lean', 'Lcapy/Model/EnvMemo.lean', 'Lcapy/Model/Alias.lean',
+           'Lcapy/Model/SymReg.lean', 'Lcapy/Proofs/SymReg.lean', 'Lcapy/Model/EnvMemo.lean', 'Lcapy/Model/Alias.lean', 'Lcapy/Proofs/Alias.lean',
            'Lcapy/Generated/Caches.lean']
 
 LIST_QUERIES = ['capacitors', 'inductors', 'voltage_sources', 'current_sources', 'reactances',
@@ -365,6 +365,9 @@ class Real:
                 S = self.sympy
                 from lcapy import s
                 return str(S.cancel(th.Z.sympy.subs(s.sympy, self.spoint))) + ';' + self.value_at(th.Voc)
+            if q == 'kinds':
+                # noise identifiers are numbered by a process-wide counter: only their number of occurrences is kept
+                return self.canon([re.sub(r'^n\d+$', 'n*', str(k)) for k in c.kinds])
             if q in LIST_QUERIES:
                 return self.canon([an(str(k)) for k in getattr(c, q)])
             if q in BOOL_QUERIES:
@@ -1778,6 +1781,12 @@ def run(chk, replay=None):
                         h.do_setting(o[1], o[2], o[3], (tuple(o[4]) if isinstance(o[4], list) else o[4]) if len(o) > 4 else None)
                     # 'query1' records are produced by do_setting itself
             run_one('replay', rerun)
+        elif 'symops' in rp.get('input', {}):
+            ops = [tuple(o[:2]) + (list(o[2]), bool(o[3])) if o[0] == 'add' else tuple(o) for o in rp['input']['symops']]
+            symreg_case(chk, R, drv, rng, 9000 + int(time.time()) % 1000, ops=ops)
+        elif 'expr' in rp.get('input', {}):
+            transform_case(chk, R, drv, rng, fixed=(rp['input']['expr'], rp['input'].get('kwargs', {})),
+                           forward=re.search(r'\bt\b', rp['input']['expr']) is not None)
         elif 'netlist' in rp.get('input', {}):
             hash_seed_runs(chk, drv, rp.get('python_hash_seed', [0, 1]))
         return
